@@ -263,7 +263,18 @@ func DrawFaults(s *sim.Sim, kinds []sim.Outcome) {
 }
 
 // SeedNames seeds Kubernetes' name suffix generator from the tape.
-func SeedNames(s *sim.Sim) { utilrand.Seed(int64(s.Tape.Raw())) }
+func SeedNames(s *sim.Sim) {
+	nameSeed = int64(s.Tape.Raw())
+	utilrand.Seed(nameSeed)
+}
+
+var nameSeed int64
+
+// RepeatNames makes the name generator start over: the names it hands out from
+// now on are the ones it handed out at the beginning of the run, so generated
+// names collide with names that are already taken (which the code under test
+// must survive; with five random characters that never happens by chance).
+func RepeatNames() { utilrand.Seed(nameSeed) }
 
 // HookLog wires store log entries into the simulator trace.
 func HookLog(s *sim.Sim, st *simapi.Store) {
